@@ -249,5 +249,57 @@ func runC03(c *Ctx) error {
 		}
 	}
 	c.AddStat("forced_overlaps_reached", forced)
+
+	// ---- (4) hammer: many rounds of G goroutines settling one fresh message with the SAME call and reading the channel
+	// right afterwards.  "Ack() returned true" implies "Acked() is closed" for every caller, not only for the winner;
+	// the window of a violation is a few instructions wide, so only anomalous rounds are logged (as ordinary histories).
+	rounds := c.Pick(60000, 1500000)
+	type anomaly struct {
+		kind, op, g string
+	}
+	var amu sync.Mutex
+	var anomalies []anomaly
+	const G = 6
+	Parallel(16, func(w int) {
+		for k := w; k < rounds; k += 16 {
+			kind := kinds[k%len(kinds)]
+			op, rd := "Ack", "RdAck"
+			if (k/len(kinds))%2 == 1 {
+				op, rd = "Nack", "RdNack"
+			}
+			m := c03NewMessage(kind, "h")
+			start := make(chan struct{})
+			var wg sync.WaitGroup
+			for a := 0; a < G; a++ {
+				wg.Add(1)
+				go func(a int) {
+					defer wg.Done()
+					<-start
+					ok := c03Do(m, op)
+					closed := c03Do(m, rd)
+					if ok && !closed {
+						amu.Lock()
+						if len(anomalies) < 3 {
+							anomalies = append(anomalies, anomaly{kind, op, fmt.Sprintf("g%d", a+1)})
+						}
+						amu.Unlock()
+					}
+				}(a)
+			}
+			close(start)
+			wg.Wait()
+		}
+	})
+	for _, an := range anomalies {
+		r := T.NewRun("hammer/"+an.kind, map[string]any{"kind": an.kind})
+		r.Key = fmt.Sprintf("hammer/%v", an)
+		r.NonTrivial = true
+		rd := map[string]string{"Ack": "RdAck", "Nack": "RdNack"}[an.op]
+		r.Emit("call", "g", an.g, "op", an.op)
+		r.Emit("ret", "g", an.g, "res", true)
+		r.Emit("call", "g", an.g, "op", rd)
+		r.Emit("ret", "g", an.g, "res", false) // observed: settled according to the return value, channel still open
+	}
+	c.AddStat("hammer_rounds", rounds)
 	return nil
 }
